@@ -544,20 +544,34 @@ impl<'tcx> Dumper<'tcx> {
                     items.push(("bytes", jstr(&hex)));
                     // pointers stored in the constant (function pointers of a table, references to other constants)
                     let mut relocs: Vec<String> = Vec::new();
+                    let mut mem_relocs: Vec<String> = Vec::new();
                     for (roff, prov) in a.provenance().ptrs().iter() {
                         let ro = roff.bytes() as usize;
                         if ro < off {
                             continue;
                         }
-                        if let rustc_middle::mir::interpret::GlobalAlloc::Function { instance, .. } =
-                            tcx.global_alloc(prov.alloc_id())
-                        {
-                            let f = self.callee(owner, instance.def_id(), instance.args);
-                            relocs.push(jobj(&[("off", (ro - off).to_string()), ("fn", f)]));
+                        match tcx.global_alloc(prov.alloc_id()) {
+                            rustc_middle::mir::interpret::GlobalAlloc::Function { instance, .. } => {
+                                let f = self.callee(owner, instance.def_id(), instance.args);
+                                relocs.push(jobj(&[("off", (ro - off).to_string()), ("fn", f)]));
+                            }
+                            rustc_middle::mir::interpret::GlobalAlloc::Memory(target) => {
+                                // a reference to other constant data (`const ORIGIN: &CStr = ..`): the bytes it points to
+                                let ta = target.inner();
+                                if ta.provenance().ptrs().is_empty() && ta.len() <= 256 {
+                                    let tb = ta.inspect_with_uninit_and_ptr_outside_interpreter(0..ta.len());
+                                    let thex: String = tb.iter().map(|b| format!("{:02x}", b)).collect();
+                                    mem_relocs.push(jobj(&[("off", (ro - off).to_string()), ("bytes", jstr(&thex))]));
+                                }
+                            }
+                            _ => {}
                         }
                     }
                     if !relocs.is_empty() {
                         items.push(("relocs", jarr(&relocs)));
+                    }
+                    if !mem_relocs.is_empty() {
+                        items.push(("mem_relocs", jarr(&mem_relocs)));
                     }
                 }
             }
@@ -727,6 +741,7 @@ impl<'tcx> Dumper<'tcx> {
         items.push(("span", self.span(body.span)));
         if matches!(dk, DefKind::Fn | DefKind::AssocFn) {
             items.push(("vis", jstr(&format!("{:?}", tcx.visibility(did)))));
+            items.push(("const_fn", tcx.is_const_fn(did).to_string()));
             let attrs = tcx.codegen_fn_attrs(did);
             let mut flags = Vec::new();
             if attrs.flags.contains(rustc_middle::middle::codegen_fn_attrs::CodegenFnAttrFlags::NO_MANGLE) {
